@@ -37,6 +37,8 @@ import (
 //   close    exporter CloseConnToCollector
 // Cfg: proto (0 tcp, 1 udp), domain, refresh (s), check_ms, v6
 
+var errInjectedWrite = fmt.Errorf("injected write failure")
+
 type wireMsg struct {
 	At    time.Time
 	By    string // task id of the writer ("" in race mode)
@@ -60,8 +62,9 @@ type callRec struct {
 	Valid   bool         // the harness built a set that the property says must be accepted
 	Expect  string       // "", "error" (must fail and write nothing)
 	Why     string
-	MsgLen  int // size target, if any
-	W0, W1  int // wire index range [W0,W1) written by the app task during the call
+	MsgLen  int  // size target, if any
+	W0, W1  int  // wire index range [W0,W1) written by the app task during the call
+	Faulted bool // a transport write fault was injected into this call
 }
 
 type tmplInfo struct {
@@ -90,6 +93,9 @@ type expSession struct {
 	seqMarks        []seqMark
 	window          int // receive window of the peer (0: unlimited); with a window the peer task reads
 	trailingPartial int
+	// pending write fault for the next write of the application task (op "wfault")
+	wfKind, wfBytes int
+	wfFired         int
 }
 
 type seqMark struct {
@@ -140,12 +146,46 @@ func newExpSessionOpts(env *Env, o expOpts) (*expSession, error) {
 		// taps see plaintext only; with TLS/DTLS the wire carries ciphertext
 		env.Net.OnConnect = func(cl, sv *simnet.Conn) {
 			cl.Tap = func(p []byte) { s.tap(p) }
+			cl.Hook = func(_ *simnet.Conn, p []byte) simnet.WritePlan {
+				if s.wfKind == 0 || simrt.GoID() != s.appGID {
+					return simnet.WritePlan{Accept: -1}
+				}
+				kind, k := s.wfKind, s.wfBytes
+				s.wfKind = 0
+				s.wfFired++
+				if k >= len(p) {
+					k = len(p) - 1
+				}
+				if k < 0 {
+					k = 0
+				}
+				switch kind {
+				case 1: // short write, no error
+					s.env.Count("fault.short_write", 1)
+					return simnet.WritePlan{Accept: k}
+				case 2: // error after k bytes
+					s.env.Count("fault.write_error_after_partial", 1)
+					return simnet.WritePlan{Accept: k, Err: errInjectedWrite}
+				default: // error, nothing written
+					s.env.Count("fault.write_error", 1)
+					return simnet.WritePlan{Accept: 0, Err: errInjectedWrite}
+				}
+			}
 		}
 		env.Net.OnUDPBind = func(c *simnet.UDPConn) {
 			if c.RemoteAddr() != nil {
 				c.Tap = func(to *net.UDPAddr, p []byte) { s.tap(p) }
-				if o.udpHook != nil {
-					c.Hook = func(_ *simnet.UDPConn, to *net.UDPAddr, p []byte) simnet.Fate { return o.udpHook(s, p) }
+				c.Hook = func(_ *simnet.UDPConn, to *net.UDPAddr, p []byte) simnet.Fate {
+					if s.wfKind != 0 && simrt.GoID() == s.appGID {
+						s.wfKind = 0
+						s.wfFired++
+						s.env.Count("fault.write_error", 1)
+						return simnet.Fate{Err: errInjectedWrite}
+					}
+					if o.udpHook != nil {
+						return o.udpHook(s, p)
+					}
+					return simnet.Fate{}
 				}
 			}
 		}
@@ -207,9 +247,11 @@ func (s *expSession) send(c callRec) {
 	s.inCall = len(s.calls)
 	s.mu.Unlock()
 	c.T0 = time.Now()
+	f0 := s.wfFired
 	n, err := s.ep.SendSet(s.set)
 	c.T1 = time.Now()
 	c.N, c.Err = n, err
+	c.Faulted = s.wfFired != f0
 	s.mu.Lock()
 	c.W1 = len(s.wire)
 	s.inCall = -1
@@ -284,6 +326,10 @@ func (s *expSession) runOps1(i int, op plan.Op) {
 		s.send(callRec{Op: i, Kind: "undef", Slot: -1, Expect: "error", Why: "undefined set type"})
 	case "adv":
 		s.env.Sleep(time.Duration(op.A))
+	case "wfault":
+		// the next write of the application fails: A=1 short write (B bytes accepted, no error),
+		// A=2 error after B bytes, A=3 error with nothing written
+		s.wfKind, s.wfBytes = int(op.A), int(op.B)
 	case "setseq":
 		s.ep.VerifSetSeq(uint32(op.A))
 		s.mu.Lock()
@@ -764,6 +810,10 @@ func (s *expSession) checkBookkeeping() {
 				n++
 				bytesW += len(pw[i].Bytes)
 			}
+		}
+		if c.Faulted {
+			s.env.Violate("write-fault-reported-as-success", "", "call %d (%s): the transport accepted only part of the message or failed, but SendSet returned success (n=%d)", ci, c.Kind, c.N)
+			continue
 		}
 		if n != 1 {
 			s.env.Violate("one-message-per-call", "", "call %d (%s) succeeded and wrote %d messages", ci, c.Kind, n)
